@@ -156,6 +156,16 @@ def run_regrid(ctx, n):
                             break
                     if not ok:
                         break
+        if guard:
+            # a reading within 1e-12 of a level without being on it: which side the quotient y/step falls on is a matter of
+            # one IEEE division, so the rule is applied to the quotients the tool itself forms (one division each, as typed)
+            flat_f = []
+            for ya, yb in zip(ys, ys[1:]):
+                ca, cb = math.ceil(ya / step), math.ceil(yb / step)
+                flat_f += list(range(ca, cb)) if cb > ca else list(range(cb, ca))[::-1]
+            if [k for k, _ in got] != flat_f:
+                ok, why = False, {"why": "reported levels differ from the multiples of the step between consecutive samples (decided on the "
+                                         "float quotients y/step, one division each)", "got": [k for k, _ in got][:20], "expected": flat_f[:20]}
         if not ok:
             ctx.obligation(ob_q, False)
             ctx.violation("impl-violation", "c12Holds", {"input": inp, "impl": got, "model": mf["crossings"],
